@@ -100,10 +100,12 @@ class Evaluator:
     funcs: set of module-level function names (evaluate to Sym);
     models: name -> python callable modelling a called helper."""
 
-    def __init__(self, globals_, funcs, models=None, fuel=2000, defs=None):
+    def __init__(self, globals_, funcs, models=None, fuel=2000, defs=None,
+                 attr_env=None):
         self.g, self.funcs, self.models = globals_, funcs, models or {}
         self.fuel = fuel
         self.defs = defs or {}      # name -> FunctionDef evaluated on call
+        self.attr_env = attr_env or {}   # source text -> value
 
     # -- expressions --------------------------------------------------------
     def ev(self, n, env):
@@ -112,6 +114,12 @@ class Evaluator:
             raise Unsupported('evaluation budget exhausted')
         if isinstance(n, ast.Constant):
             return n.value
+        if self.attr_env and isinstance(n, (ast.Attribute, ast.Subscript)):
+            t = ast.unparse(n)
+            if t in self.attr_env:
+                return self.attr_env[t]
+        if isinstance(n, (ast.GeneratorExp, ast.ListComp, ast.SetComp)):
+            return self._comp(n, env)
         if isinstance(n, ast.Name):
             if n.id in env:
                 return env[n.id]
@@ -185,6 +193,26 @@ class Evaluator:
             return OPAQUE
         raise Unsupported('expression %s' % ast.unparse(n))
 
+    def _comp(self, n, env):
+        out = []
+
+        def rec(k, e):
+            if k == len(n.generators):
+                out.append(self.ev(n.elt, e))
+                return
+            gen = n.generators[k]
+            it = self.ev(gen.iter, e)
+            if it is OPAQUE or not isinstance(it, (list, tuple, dict, set,
+                                                   frozenset)):
+                raise Unsupported('comprehension over undetermined value')
+            for v in list(it):
+                e2 = dict(e)
+                self.bind(gen.target, v, e2)
+                if all(self.truth(self.ev(c, e2)) for c in gen.ifs):
+                    rec(k + 1, e2)
+        rec(0, env)
+        return out
+
     @staticmethod
     def _hashable(v):
         if isinstance(v, list):
@@ -248,6 +276,13 @@ class Evaluator:
                                                     'strip') and not args:
                 return getattr(recv, f.attr)()
             return OPAQUE          # logging and the like
+        if isinstance(f, ast.Name) and f.id in ('all', 'any') and \
+                len(n.args) == 1:
+            seq = self.ev(n.args[0], env)
+            if seq is OPAQUE:
+                raise Unsupported('all/any of undetermined value')
+            vals = [self.truth(v) for v in seq]
+            return all(vals) if f.id == 'all' else any(vals)
         if isinstance(f, ast.Name) and f.id in ('tuple', 'list', 'set',
                                                 'frozenset', 'dict', 'len'):
             args = [self.ev(a, env) for a in n.args]
